@@ -1482,6 +1482,12 @@ theorem sub_whole (bs : List UInt8) : Sub bs.toArray 0 bs := by
   intro i _
   simp [u8]
 
+theorem refOff_frag {r : Re} (hf : Frag r) : refOff false r = some 0 := by
+  induction hf with
+  | cat _ _ ih1 _ => simp [refOff, ih1]
+  | plus _ _ ih => simp [refOff, ih]
+  | _ => simp [refOff]
+
 theorem emit_len {r : Re} (hf : Frag r) : ∀ s, (emit false r s).1.length = clen r := by
   induction hf with
   | lit _ | masked _ _ | notLit _ | maskedNot _ _ | any | wordCh | nonWordCh | space | nonSpace | digit | nonDigit | bol | eol | wordB | nonWordB => intro s; simp [emit, clen]
@@ -1727,6 +1733,8 @@ theorem seg_of_emit {r : Re} (hf : Frag r) : ∀ (s : Nat) (code : Code) (a : Na
     simp only [clen] at hsz ⊢
     simp only [emit] at h
     -- ca ++ [op, id] ++ off16
+    rw [refOff_frag hx] at h
+    simp only [Option.getD_some, Int.natCast_zero, Int.zero_sub] at h
     obtain ⟨h12, hoff⟩ := sub_append h
     obtain ⟨hca, hhead⟩ := sub_append h12
     simp only [List.length_append, List.length_cons, List.length_nil, emit_len hx] at hoff hhead
